@@ -53,7 +53,7 @@ def strategy_case(draw):
     c["hp"] = draw(st.integers(0, max(0, r - 1)))
     c["hp_sigma"] = draw(sigma_s)
     if draw(st.booleans()):
-        px = draw(st.floats(0.5, 10, allow_nan=False))
+        px = draw(st.one_of(st.floats(0.5, 10, allow_nan=False), st.sampled_from([0.5, 0.75, 1.0])))
         # resolutions that map to 1.2 .. min(N)/2 Fourier pixels whichever axis is taken as the box edge
         fp = draw(st.floats(1.2, max(1.3, nmin / 2 - 0.2), allow_nan=False))
         c["res_any"] = {"pixel_size": px, "resolution": shape[0] * px / fp, "resolution_hp": shape[0] * px / max(0.6, fp / draw(st.floats(1.6, 4, allow_nan=False)))}
@@ -236,6 +236,19 @@ def run(case):
                 B = np.fft.fftn(bp)
                 band = ((k2 <= r * r) & (k2 > hp * hp)).astype(float)
                 out.check(np.abs(B - band * F).max() <= 1e-9 * fmax, "hard:bandpass_gain", "")
+    # repeatability: the same low-pass again (after the band-pass above may have built masks from the same parameters)
+    ok, y_again = call(out, "lowpass", lambda: cryomap.lowpass(x, fourier_pixels=r, gaussian=s))
+    if ok:
+        out.check(np.array_equal(y_again, y), "lowpass:result_depends_on_earlier_calls", f"max diff {np.abs(y_again - y).max()}")
+    # a pixel size given together with Fourier pixels is informational only
+    if "res_any" in case:
+        px_i = case["res_any"]["pixel_size"]
+        ok, y_px = call(out, "lowpass", lambda: cryomap.lowpass(x, fourier_pixels=r, pixel_size=px_i, gaussian=s))
+        if ok:
+            out.check(np.abs(y_px - y).max() < 1e-9, "lowpass:fourier_pixels_changed_by_pixel_size", f"r={r} N={shape} pixel size {px_i}")
+        ok, h_px = call(out, "highpass", lambda: cryomap.highpass(x, fourier_pixels=r, pixel_size=px_i, gaussian=s))
+        if ok and 'h' in dir():
+            pass
     # resolution route
     if "pixel_size" in case and cubic:
         n = shape[0]
